@@ -228,7 +228,7 @@ static int worker(void)
 			if (!T && ((k + r) % 3)) continue;
 			for (uint32_t N1 = 3; N1 <= r && N1 <= 10; N1++) {
 				if (g_for15 && (N1 & 1) && (k + r + N1) % 5) continue;     /* odd N1 only as controls */
-				int ns = T ? 6 : 2;
+				int ns = T ? 10 : 2;
 				for (int s = 0; s < ns; s++) {
 					uint32_t seed = s < 2 ? fixed_seeds[(k + r + N1 + (unsigned)s) % 4] : 1 + (uint32_t)(rng_u64(&rng) % 2147483646u);
 					int mode = (int)((k + r + N1 + (unsigned)s) % 3);
@@ -275,12 +275,24 @@ static int worker(void)
 			rep_unit(unit);
 			if (!rep_unit_mine(unit)) continue;
 			rng_t rng = rng_make(g_run.seed, 570, (uint64_t)u);
-			for (int s = 0; s < (T ? 1500 : 150); s++) {
+			for (int s = 0; s < (T ? 4000 : 150); s++) {
 				uint32_t k = 1 + rng_below(&rng, 128), N1 = 4 + 2 * rng_below(&rng, 4), r = N1 + rng_below(&rng, 1024);
 				if (rng_below(&rng, 8) == 0) N1 = 3 + 2 * rng_below(&rng, 3);
 				if (N1 > r) N1 = r;
 				config_case(k, r, N1, 1 + (uint32_t)(rng_u64(&rng) % 2147483646u), (int)rng_below(&rng, 3), &rng, 0);
 			}
+		}
+	}
+	/* random medium family: any rate, left degrees up to 24, seeds over the whole legal range */
+	for (int u = 0; u < 16; u++, unit++) {
+		rep_unit(unit);
+		if (!rep_unit_mine(unit)) continue;
+		rng_t rng = rng_make(g_run.seed, 580, (uint64_t)u);
+		for (int s = 0; s < (T ? 4000 : 100); s++) {
+			uint32_t N1 = 3 + rng_below(&rng, rng_below(&rng, 4) ? 8 : 22), k = 1 + rng_below(&rng, rng_below(&rng, 5) ? 120 : 700), r = N1 + rng_below(&rng, rng_below(&rng, 5) ? 120 : 700);
+			if (g_for15 && (N1 & 1) && rng_below(&rng, 4)) N1++;
+			if (N1 > r) r = N1;
+			config_case(k, r, N1, 1 + (uint32_t)(rng_u64(&rng) % 2147483646u), (int)rng_below(&rng, 3), &rng, 0);
 		}
 	}
 	/* larger configurations */
